@@ -162,3 +162,30 @@ def run(ctx):
             if any("in self.ops" in t for t in txt):
                 ok = any("is_integer" in t for t in txt)
     ctx.ob("C38.R4", F + ":ConstantFolder.is_const", "binary folding is gated on the operator being in the table and the type being an integer", ok, construct="int-gate")
+    _every_cast_applied(ctx)
+
+
+def _every_cast_applied(ctx):
+    """R5: a cast chain (T2)(T1)x is evaluated inside out, EVERY conversion applied: the narrowing or sign change of
+    an inner cast is not undone by an outer, wider one ((i32)(u8)(i8)-1 is 255)."""
+    from ..tables import isinstance_branches
+    from .. import sym
+    ctx.rule("C38.R5", "eval_const of a Cast converts the value of the cast's own source operand: the recursion goes to value.src itself (no inner cast is skipped) and the result is cast(<that value>, value.ty)", floor=3)
+    fn = ctx.fn(F, "ConstantFolder.eval_const")
+    site = F + ":ConstantFolder.eval_const"
+    br = [n for n in ast.walk(fn) if isinstance(n, ast.If) and " ".join(norm(n.test).split()) == "isinstance(value, ir.Cast)"]
+    ctx.need(len(br) == 1, "eval_const: Cast branch not found")
+    body = br[0].body
+    loops = [x for st in body for x in ast.walk(st) if isinstance(x, (ast.While, ast.For))]
+    ctx.ob("C38.R5", site, "the Cast branch has no loop that walks down a chain of casts", not loops, construct="no-chain-skipping", node=loops[0] if loops else None)
+    rec = [c for st in body for c in ast.walk(st) if isinstance(c, ast.Call) and norm(c.func) == "self.eval_const"]
+    env = sym.single_assign_env(ast.Module(body=body, type_ignores=[]))
+    ok = len(rec) == 1 and norm(sym.deep_inline(rec[0].args[0], env)) == "value.src"
+    ctx.ob("C38.R5", site, "the operand evaluated is value.src", ok, construct="evaluates-own-source", detail=norm(rec[0]) if rec else "")
+    cs = [c for st in body for c in ast.walk(st) if isinstance(c, ast.Call) and norm(c.func) == "cast"]
+    ok = len(cs) == 1 and len(cs[0].args) == 2 and norm(cs[0].args[1]) == "value.ty" and rec and norm(sym.deep_inline(cs[0].args[0], env)) in ("self.eval_const(value.src).value",)
+    ctx.ob("C38.R5", site, "its value is converted with cast(..., value.ty) - the type of THIS cast", ok, construct="cast-to-own-type", detail=norm(cs[0]) if cs else "")
+    isc = ctx.fn(F, "ConstantFolder.is_const")
+    brc = [n for n in ast.walk(isc) if isinstance(n, ast.If) and " ".join(norm(n.test).split()) == "isinstance(value, ir.Cast)"]
+    ok = len(brc) == 1 and [" ".join(norm(x).split()) for x in brc[0].body] == ["return self.is_const(value.src)"]
+    ctx.ob("C38.R5", F + ":ConstantFolder.is_const", "a cast is constant exactly when its own source is", ok, construct="is-const-own-source")
